@@ -92,3 +92,9 @@ Example marker_key_guard_needed :
   | _ => False
   end.
 Proof. vm_compute. reflexivity. Qed.
+
+(* the same map written in two iteration orders *)
+Example map_order_sample :
+  map_node true [([98], VS (SInt64 2)); ([97], VS (SString [120]))]
+  = map_node true [([97], VS (SString [120])); ([98], VS (SInt64 2))].
+Proof. vm_compute. reflexivity. Qed.
